@@ -111,6 +111,10 @@ OUT_EFF = [
     ("when_inside_and_result", ["and", ["when", ["p", "?x"], ["and", ["r"], ["forall", ["?z", "-", "t1"], ["when", ["p", "?z"], ["s2"]]]]]]),
     ("assign_undeclared_function", ["and", ["assign", ["ff", "?x"], "1"]]),
     ("nested_and_effect", ["and", ["and", ["p", "?x"], ["r"]]]),
+    ("nested_and_after_other_effects", ["and", ["p", "?x"], ["not", ["r"]], ["increase", ["f", "?x"], "1"],
+                                        ["and", ["q", "?x", "?y"], ["decrease", ["g"], "2"]], ["p", "?y"]]),
+    ("nested_and_between_whens", ["and", ["when", ["r"], ["p", "?x"]], ["not", ["q", "?x", "?y"]], ["and", ["p", "?y"]],
+                                  ["when", ["p", "?y"], ["not", ["r"]]]]),
     ("equality_effect_junk", ["and", ["=", "?x", "?y"]]),
     ("forall_two_vars_effect", ["and", ["forall", ["?z", "?w", "-", "t1"], ["when", ["q", "?z", "?w"], ["not", ["q", "?z", "?w"]]]]]),
     ("increase_by_fluent_of_quantified", ["and", ["forall", ["?z", "-", "t1"], ["when", ["p", "?z"], ["increase", ["g"], ["f", "?z"]]]]]),
@@ -356,6 +360,16 @@ def tasks_for(tier, seed):
     d = G.domain_tree([("act", P2, ["and", ["q2", "?x", "?y"]], ["and", ["u2", "?x"]])], const=False,
                       extra_predicates=[["q2", "?a", "?b", "-", "t1"], ["u2", "?a"]])
     tasks.append({"text": G.pretty(d), "fragment": "in", "label": "decl grouped_and_untyped_predicate_parameters", "layout": "canonical"})
+    # constants in several groups: a type that closes two separate groups, a second type in between, unused constants,
+    # a trailing name without a type (root type)
+    for label, consts in (("constants_two_groups_same_type", ["k", "-", "t1", "c2", "-", "t2", "c3", "c4", "-", "t1"]),
+                          ("constants_subtype_and_root", ["k", "-", "t1", "c5", "-", "t3", "c6", "-", "object"]),
+                          ("constants_trailing_untyped", ["k", "-", "t1", "c7", "c8"])):
+        d = G.domain_tree([("act", P2, ["and", ["p", "k"]], ["and", ["q", "?x", "k"]])], const=True)
+        for sec in d:
+            if isinstance(sec, list) and sec and sec[0] == ":constants":
+                sec[1:] = consts
+        tasks.append({"text": G.pretty(d), "fragment": "in", "label": "decl " + label, "layout": "canonical"})
     # out-of-fragment forms
     for label, pre in OUT_PRE:
         tree = G.domain_tree([("act", P2, pre, ["and", ["r"]])], const=True)
